@@ -711,3 +711,12 @@ def describe(tier):
             "state keyed by (bin count, first bin) cannot be right for both legs whatever came before; "
             "state that needs three or more grids, or another key collision, is outside the bound",
         ])
+
+
+_describe_base = describe
+
+
+def describe(tier):     # noqa: F811 - the base description plus what later rounds added to the space
+    d = _describe_base(tier)
+    d["rule"] = d["rule"] + " " + 'The centre vectors grid-warp and mid-warp have the same length and the same first / last value as the vector evaluated before them and other interior values.'
+    return d
